@@ -22,7 +22,7 @@ def native(module, routine, payload):
 print("property   :", d.get("property")); print("obligation :", d.get("obligation")); print("what       :", (d.get("what") or "")[:400])
 nat = d.get("native") or {}
 if isinstance(nat, dict) and nat.get("payload"):            # solver counter-model rebuilt as real objects
-    r = native("model", "model_replay", nat["payload"])
+    r = native("model", "function_replay" if nat["payload"].get("func") else "model_replay", nat["payload"])
     print("input      :", json.dumps(r.get("input"))[:1500]); print("observed   :", r.get("observed"), r.get("why", ""))
     print("REPRODUCED" if r.get("reproduced") else "not reproduced on this tree"); sys.exit(1 if r.get("reproduced") else 0)
 if d.get("label") == "bounded" and d.get("routine"):       # witness of a bounded stand-in
